@@ -127,8 +127,8 @@ class Gen:
         progs.sort(key=lambda p: (p.jdf, p.args))
         return progs
 
-    def corpus_programs(self, both_backends=False):
-        d = os.path.join(driver.VERIF, 'corpus')
+    def corpus_programs(self, both_backends=False, subdir=None):
+        d = os.path.join(driver.VERIF, 'corpus', subdir) if subdir else os.path.join(driver.VERIF, 'corpus')
         progs = []
         tp = self.tree_programs()
         ref = None
@@ -154,7 +154,7 @@ class Gen:
                                      expect_fail='expect-reject' in head))
         return progs
 
-    def programs(self, tier, both_backends=None, subset=None):
+    def programs(self, tier, both_backends=None, subset=None, extra_dir=None):
         both = (tier == 'thorough') if both_backends is None else both_backends
         progs = self.tree_programs()
         if both:
@@ -166,6 +166,8 @@ class Gen:
                     extra.append(q)
             progs += extra
         progs += self.corpus_programs(both)
+        if extra_dir:
+            progs += self.corpus_programs(False, subdir=extra_dir)
         if subset is not None:
             progs = [p for p in progs if subset(p)]
         return progs
